@@ -238,6 +238,28 @@ def oracle(case):
         e3 = float(obj.compute_jackknife_estimates(data + a, fn_plain, 2, *args, **kwargs))
         if abs(e3 - est) > 1e-9 * max(est, abs(a), 1.0):
             return f"data shifted by {a}: estimate of the mean changes from {est!r} to {e3!r}"
+    # earlier calls: the object has meanwhile seen data of ANOTHER length; the value for this data must be the same again
+    if n >= 4:
+        other = np.concatenate([data, data])[: 2 * n - 1] if n % 2 else data[: n - 1 - (n // 3)]
+        if int(case["f"] * len(other)) >= 1:
+            try:
+                obj.compute_jackknife_estimates(other, fn_plain, 1, *args, **kwargs)
+                again = obj.compute_jackknife_estimates(data, fn_plain, 2, *args, **kwargs)
+            except Exception as ex:
+                return f"a second data set on the same object raises {type(ex).__name__}: {ex}"
+            if float(again).hex() != float(est).hex():
+                return (f"the estimate depends on earlier calls: {est!r} at first, {float(again)!r} after the same object had analysed "
+                        f"a data set of {len(other)} points in between (n={n}, d={d}, N={N})")
+    # the same values in another admissible array representation (integer / bool dtype)
+    if np.all(data == np.round(data)) and case["stat"] in ("mean", "sum", "meansq"):
+        for dt in (np.int64, np.int32) + ((np.bool_,) if np.all((data == 0) | (data == 1)) else ()):
+            try:
+                ei = Jackknife(case["f"], N, case["seed"]).compute_jackknife_estimates(data.astype(dt), fn_plain, 2, *args, **kwargs)
+            except Exception as ex:
+                return f"data of dtype {np.dtype(dt).name} raises {type(ex).__name__}: {ex}"
+            if abs(float(ei) - est) > 1e-12 * max(abs(est), 1e-300):
+                return (f"the same values as a {np.dtype(dt).name} array give {float(ei)!r}, as float64 {est!r} "
+                        f"(n={n}, d={d}, N={N}, statistic {case['stat']})")
     return None
 
 
